@@ -36,6 +36,7 @@ namespace Utv.C10
 
 inductive Kind where
   | parse | absence | exceed | tupleExceed | constraint | oneOf | negate
+  | paramsExceed | paramsLack | depsAbsence     -- errors of a whole mapping: they name no item
   | collected        -- a CollectedParseError handed to handle_error as one error object
   | other            -- any non-ParseError exception (TypeError/ValueError of a converter, IndexError)
   deriving DecidableEq, Repr
@@ -138,6 +139,8 @@ structure Opts where
   invalidKeys : Policy := .throw
   invalidValues : Policy := .throw
   dfs : Bool := false                 -- data_first_search
+  maxParams : Option Nat := none      -- max_params (0 = not set: `if options.max_params:`)
+  minParams : Option Nat := none      -- min_params
   deriving Repr
 
 structure Ctx where
@@ -199,12 +202,13 @@ def andThen (r : Ctx × Res α) (k : Ctx → α → Ctx × Res β) : Ctx × Res 
 
 One iteration either has nothing to report, or calls `context.handle_error(e)` and — when that does
 not raise — carries on with the next item (`report`), or calls `handle_error(e)` and then raises anyway
-(`abort`, the missing-prefix branch of `_parse_tuple_args`). -/
+(`abort`). -/
 
 inductive Step (α : Type) where
   | keep (a : α)
   | report (e : Err) (a : α)
-  | abort (e : Err) (x : Exc)
+  | abort (e : Err) (x : Exc)     -- no loop of the current tree ends this way any more (it was the missing-prefix
+                                  -- branch of `_parse_tuple_args` before fix 40b0acf); the loop lemmas cover it
 
 def runLoop (step : α → ι → Step α) : Ctx → List ι → α → Ctx × Res α
   | c, [], a => (c, .ok a)
@@ -258,8 +262,9 @@ def seqStep (rec : P) (T : Ty) (m : Mode) (o : Opts) (acc : List Val) (it : Val 
 def tupleStep (rec : P) (m : Mode) (o : Opts) (xs : List Val) (acc : List Val) (it : Ty × Nat) : Step (List Val) :=
   match xs[it.2]? with
   | none =>
-    -- :1902-1907 AbsenceError is handled, then `value[i]` raises IndexError in the try *and* in its handler (:1914)
-    .abort { kind := .absence, item := some (toString it.2) } (.raw { kind := .other })
+    -- rule.py:1935-1942 at /repo 7b3aeda (since C04's fix 40b0acf): AbsenceError is handled and the loop goes on
+    -- with the next prefix (before the fix `value[i]` then died with IndexError)
+    .report { kind := .absence, item := some (toString it.2) } acc
   | some x =>
     match verdict rec it.1 m o x with
     | some r => .keep (acc ++ [r])
@@ -352,15 +357,22 @@ def exactTy (W : World) (v : Val) : Ty → Bool
   | .leaf t => W.exact t v
   | _ => false
 
-/-- `&` loop (rule.py:365-373): arguments share the context, the value is threaded; a failure is
-handled (which may raise) and ends the loop. -/
+/-- `except Exception as e: if not isinstance(e, ParseError): e = ParseError(origin_exc=e)` (rule.py:380-382, C04's
+fix): what a plain-class converter raised becomes a `ParseError`; everything else in the model is one already -/
+def asParseError : Exc → Exc
+  | .raw { kind := .other, item := _ } => .raw { kind := .parse }
+  | x => x
+
+/-- `&` loop (rule.py:374-384): arguments share the context, the value is threaded; a failure is
+handled (which may raise — fail-fast it is the exception object itself, `raise e`) and ends the loop. -/
 def allLoop (rec : P) : Ctx → Val → List Ty → Ctx × Res Val
   | c, v, [] => (c, .ok v)
   | c, v, t :: ts =>
     match rec t c v with
     | (c1, .ok v1) => allLoop rec c1 v1 ts
     | (c1, .error e) =>
-      match c1.handleError e.toErr with
+      match c1.handleError (asParseError e).toErr with
+      | (c2, some (.raw _)) => (c2, .error (asParseError e))
       | (c2, some x) => (c2, .error x)
       | (c2, none) => (c2, .ok v)           -- break
 
@@ -471,6 +483,7 @@ structure FieldDecl where
   required : Bool
   default : Option Val
   onError : Option Policy          -- Field(on_error=…); none ⇒ options.invalid_values (field.py:800-803)
+  deps : List String := []         -- Field(dependencies=[…]): fields that must be given when this one is
   deriving Repr, Inhabited
 
 abbrev Data := List (String × Val)
@@ -552,10 +565,72 @@ def dfStep2 (data : Data) (excluded : List String) (acc : Data) (f : FieldDecl) 
     | some d => .keep (assocSet f.name d acc)
     | none => .keep acc
 
-def dataFirst (rec : P) (decl : List FieldDecl) (excluded : List String) (c : Ctx) (data : Data) : Ctx × Res Data :=
-  andThen (runLoop (dfStep1 rec c.mode c.o decl excluded) c data ([], [])) fun c1 acc =>
-  andThen (runLoop (dfStep2 data excluded) c1 decl acc.1) fun c2 res2 =>
-  (c2, .ok (res2 ++ acc.2))                                     -- result.update(addition)
+/-! #### errors of the whole mapping: the count of keys, dependencies
+
+These name no item.  `g` switches them on: the parsers run with `g = true`; the property's notion "item i on
+its own" (below) is the same code with `g = false`. -/
+
+/-- `parse_data` prelude (base.py:361-376): `ParamsExceedError` / `ParamsLackError` -/
+def countStep (o : Opts) (n : Nat) (_ : Unit) (isMax : Bool) : Step Unit :=
+  if isMax then
+    match o.maxParams with
+    | some k => if k != 0 && n > k then .report { kind := .paramsExceed } () else .keep ()
+    | none => .keep ()
+  else
+    match o.minParams with
+    | some k => if k != 0 && n < k then .report { kind := .paramsLack } () else .keep ()
+    | none => .keep ()
+
+/-- the value given for a non-required field was dropped by the `exclude` policy: it counts as not given
+(`ParserField.EXCLUDED`, fix 107a5ff) -/
+def excludedAsAbsent (rec : P) (m : Mode) (o : Opts) (f : FieldDecl) (v : Val) : Bool :=
+  match f.ty with
+  | none => false
+  | some T => (verdict rec T m o v).isNone && (f.onError.getD o.invalidValues == .exclude) && !f.required
+
+/-- `parse_value` produced a value that is stored under the field's name -/
+def storesB (rec : P) (m : Mode) (o : Opts) (f : FieldDecl) (v : Val) : Bool :=
+  match fieldValue rec m o f v with
+  | .keep (some _) => true
+  | .report _ (some _) => true
+  | _ => false
+
+/-- the field takes the given value: its dependencies are demanded (`dependencies.update(...)`, base.py:516-519, 657-660) -/
+def takes (rec : P) (m : Mode) (o : Opts) (data : Data) (ex : List String) (f : FieldDecl) : Bool :=
+  !ex.contains f.name &&
+  match data.lookup f.name with
+  | none => false
+  | some v => !excludedAsAbsent rec m o f v && storesB rec m o f v
+
+/-- the field is in `unprovided_fields` (base.py:528, 600, 648) -/
+def unprovidedF (rec : P) (m : Mode) (o : Opts) (data : Data) (ex : List String) (f : FieldDecl) : Bool :=
+  !ex.contains f.name &&
+  match data.lookup f.name with
+  | none => true
+  | some v => excludedAsAbsent rec m o f v
+
+/-- the field's name is a key of `result` when the dependencies are checked -/
+def inResult (rec : P) (m : Mode) (o : Opts) (data : Data) (ex : List String) (f : FieldDecl) : Bool :=
+  takes rec m o data ex f || (unprovidedF rec m o data ex f && !f.required && f.default.isSome)
+
+/-- `lack` (base.py:536-548, 662-674): demanded dependencies that are unprovided fields or not in the result.
+The three sets of the code are functions of the declaration, the input and the fields' verdicts (one key per
+field), so they are computed here instead of being threaded through the loops. -/
+def depsLack (rec : P) (m : Mode) (o : Opts) (decl : List FieldDecl) (ex : List String) (data : Data) : List String :=
+  ((decl.filter (takes rec m o data ex)).flatMap (·.deps)).filter fun d =>
+    decl.any (fun f => f.name == d && unprovidedF rec m o data ex f) ||
+    !(decl.any (fun f => f.name == d && inResult rec m o data ex f) || ex.contains d)
+
+def depsStep (rec : P) (m : Mode) (o : Opts) (decl : List FieldDecl) (ex : List String) (data : Data) (g : Bool)
+    (_ : Unit) (_ : Unit) : Step Unit :=
+  if g && !(depsLack rec m o decl ex data).isEmpty then .report { kind := .depsAbsence } () else .keep ()
+
+def dataFirst (rec : P) (decl : List FieldDecl) (ex : List String) (g : Bool) (c : Ctx) (data : Data) :
+    Ctx × Res Data :=
+  andThen (runLoop (dfStep1 rec c.mode c.o decl ex) c data ([], [])) fun c1 acc =>
+  andThen (runLoop (dfStep2 data ex) c1 decl acc.1) fun c2 res2 =>
+  andThen (runLoop (depsStep rec c.mode c.o decl ex data g) c2 [()] ()) fun c3 _ =>   -- :536-548
+  (c3, .ok (res2 ++ acc.2))                                     -- result.update(addition)
 
 /-- field loop of `field_first_parse` (base.py:581-665) -/
 def ffStep1 (rec : P) (m : Mode) (o : Opts) (data : Data) (excluded : List String) (acc : Data) (f : FieldDecl) :
@@ -577,22 +652,30 @@ def ffStep2 (rec : P) (m : Mode) (o : Opts) (decl : List FieldDecl) (excluded : 
   if decl.any (fun f => f.name == kv.1 && !excluded.contains f.name) then .keep acc
   else additionStep rec m o acc kv
 
-def fieldFirst (rec : P) (decl : List FieldDecl) (excluded : List String) (c : Ctx) (data : Data) : Ctx × Res Data :=
-  andThen (runLoop (ffStep1 rec c.mode c.o data excluded) c decl []) fun c1 res =>
+def fieldFirst (rec : P) (decl : List FieldDecl) (ex : List String) (g : Bool) (c : Ctx) (data : Data) :
+    Ctx × Res Data :=
+  andThen (runLoop (ffStep1 rec c.mode c.o data ex) c decl []) fun c1 res =>
+  andThen (runLoop (depsStep rec c.mode c.o decl ex data g) c1 [()] ()) fun c1' _ =>   -- :662-674, before the additions
   match c.o.addition with                                      -- `if options.addition is not None`
-  | .none => (c1, .ok res)
-  | _ => andThen (runLoop (ffStep2 rec c.mode c.o decl excluded) c1 data (res, [])) fun c2 acc => (c2, .ok (acc.1 ++ acc.2))
+  | .none => (c1', .ok res)
+  | _ => andThen (runLoop (ffStep2 rec c.mode c.o decl ex) c1' data (res, [])) fun c2 acc => (c2, .ok (acc.1 ++ acc.2))
 
-/-- `parse_data` (base.py:353-388; max_params/min_params not in the fragment) -/
-def parseData (rec : P) (decl : List FieldDecl) (excluded : List String) (c : Ctx) (data : Data) : Ctx × Res Data :=
-  if c.o.dfs then dataFirst rec decl excluded c data else fieldFirst rec decl excluded c data
+/-- `parse_data` (base.py:353-388).  `g = false`: without the checks of the whole mapping. -/
+def parseData (rec : P) (decl : List FieldDecl) (ex : List String) (g : Bool) (c : Ctx) (data : Data) :
+    Ctx × Res Data :=
+  andThen (runLoop (countStep c.o data.length) c (if g then [true, false] else []) ()) fun c0 _ =>
+  if c.o.dfs then dataFirst rec decl ex g c0 data else fieldFirst rec decl ex g c0 data
+
+/-- a type called on a value with a fresh context of the given options (`type_transform(value, T, options=…)`) -/
+def runType (W : World) (fuel : Nat) (T : Ty) (m : Mode) (o : Opts) (v : Val) : Res Val :=
+  (parse W fuel T (clean0 m o) v).2
 
 /-- `BaseParser.__call__` (base.py:342-350): a fresh context, `parse_data`, `context.raise_error()` -/
 def run (W : World) (fuel : Nat) (decl : List FieldDecl) (m : Mode) (o : Opts) (data : Data) : Res Data :=
-  (andThen (parseData (parse W fuel) decl [] (clean0 m o) data) finish).2
+  (andThen (parseData (parse W fuel) decl [] true (clean0 m o) data) finish).2
 
 def runLegacy (W : World) (fuel : Nat) (decl : List FieldDecl) (m : Mode) (o : Opts) (data : Data) : Res Data :=
-  (andThen (parseData (parseLegacy W fuel) decl [] (clean0 m o) data) finish).2
+  (andThen (parseData (parseLegacy W fuel) decl [] true (clean0 m o) data) finish).2
 
 /-! ### function calls with positional arguments (func.py:580-680)
 
@@ -637,7 +720,7 @@ def posStep (rec : P) (m : Mode) (o : Opts) (sg : Sig) (acc : List Val × List S
 /-- `FunctionParser.parse_params` (func.py:611-680) on a fresh context -/
 def parseCall (rec : P) (sg : Sig) (c : Ctx) (args : List Val) (kwargs : Data) : Ctx × Res (List Val × Data) :=
   andThen (runLoop (posStep rec c.mode c.o sg) c args.zipIdx ([], [])) fun c1 acc =>
-  andThen (parseData rec sg.decl acc.2 c1 kwargs) fun c2 kw =>
+  andThen (parseData rec sg.decl acc.2 true c1 kwargs) fun c2 kw =>
   finish c2 (acc.1, kw)                                        -- :679
 
 def runCall (W : World) (fuel : Nat) (sg : Sig) (m : Mode) (o : Opts) (args : List Val) (kwargs : Data) :
@@ -660,17 +743,21 @@ def isError : Res α → Bool
 def isItem (decl : List FieldDecl) (data : Data) (i : String) : Bool :=
   decl.any (fun f => f.name == i) || hasKey i data
 
-def failsAlone (W : World) (fuel : Nat) (decl : List FieldDecl) (o : Opts) (data : Data) (i : String) : Bool :=
-  isItem decl data i && isError (run W fuel (declOf decl i) .ff o (dataOf data i))
-
-/-- `parse_data` as `parse_params` calls it: the names in `ex` were already taken from positional arguments -/
-def runX (W : World) (fuel : Nat) (decl : List FieldDecl) (ex : List String) (m : Mode) (o : Opts) (data : Data) :
+/-- item-level parse: `parse_data` without the checks of the whole mapping (key count, dependencies); `ex`: names
+already taken from positional arguments -/
+def runItems (W : World) (fuel : Nat) (decl : List FieldDecl) (ex : List String) (m : Mode) (o : Opts) (data : Data) :
     Res Data :=
-  (andThen (parseData (parse W fuel) decl ex (clean0 m o) data) finish).2
+  (andThen (parseData (parse W fuel) decl ex false (clean0 m o) data) finish).2
 
+/-- "item `i` fails on its own": the declaration restricted to `i`, given the input restricted to `i`, is
+rejected fail-fast by the item-level parse.  This is the property's own notion, expressed with the model's
+parser — the harness measures the same thing on the real code (a one-field declaration, a one-key input). -/
 def failsAloneX (W : World) (fuel : Nat) (decl : List FieldDecl) (ex : List String) (o : Opts) (data : Data)
     (i : String) : Bool :=
-  isItem decl data i && isError (runX W fuel (declOf decl i) ex .ff o (dataOf data i))
+  isItem decl data i && isError (runItems W fuel (declOf decl i) ex .ff o (dataOf data i))
+
+def failsAlone (W : World) (fuel : Nat) (decl : List FieldDecl) (o : Opts) (data : Data) (i : String) : Bool :=
+  failsAloneX W fuel decl [] o data i
 
 /-- the parameters a call gives by position -/
 def givenPos (sg : Sig) (args : List Val) : List String :=
@@ -684,16 +771,26 @@ def varField (sg : Sig) (o : Opts) : FieldDecl :=
 alone by keyword, or `*args:j`, parsed alone against the `*args` type -/
 def posFailing (W : World) (fuel : Nat) (sg : Sig) (o : Opts) (it : Val × Nat) : Option String :=
   if sg.hasVar && it.2 ≥ sg.npos then
-    if isError (run W fuel [varField sg o] .ff o [("*args", it.1)]) then some ("*args:" ++ toString it.2) else none
+    if isError (runItems W fuel [varField sg o] [] .ff o [("*args", it.1)]) then some ("*args:" ++ toString it.2) else none
   else
     match (sg.decl.take sg.npos)[it.2]? with
     | none => none
-    | some f => if isError (run W fuel [f] .ff o [(f.name, it.1)]) then some f.name else none
+    | some f => if isError (runItems W fuel [f] [] .ff o [(f.name, it.1)]) then some f.name else none
 
 /-- "item `i` of the call fails on its own" -/
 def callFails (W : World) (fuel : Nat) (sg : Sig) (o : Opts) (args : List Val) (kwargs : Data) (i : String) : Bool :=
   args.zipIdx.any (fun it => posFailing W fuel sg o it == some i) ||
   failsAloneX W fuel sg.decl (givenPos sg args) o kwargs i
+
+/-- the errors of the whole mapping an (uncapped) collecting parse reports: they name no item -/
+def globalReports (rec : P) (m : Mode) (o : Opts) (decl : List FieldDecl) (ex : List String) (data : Data) : List Err :=
+  (match o.maxParams with
+    | some k => if k != 0 && data.length > k then [({ kind := .paramsExceed } : Err)] else []
+    | none => []) ++
+  (match o.minParams with
+    | some k => if k != 0 && data.length < k then [({ kind := .paramsLack } : Err)] else []
+    | none => []) ++
+  (if (depsLack rec m o decl ex data).isEmpty then [] else [({ kind := .depsAbsence } : Err)])
 
 /-- the items a raised exception names -/
 def Exc.items : Exc → List (Option String)
